@@ -56,6 +56,12 @@ class Tr:
         d = self.dotted(n)
         if d is not None and d in self.types:
             return self.types[d]
+        if ast.unparse(n) in self.types:
+            return self.types[ast.unparse(n)]
+        if isinstance(n, ast.IfExp):
+            return self.typ(n.body)
+        if isinstance(n, ast.BoolOp):
+            return self.typ(n.values[0])
         if isinstance(n, ast.Constant):
             return "str" if isinstance(n.value, str) else "bool" if isinstance(n.value, bool) else "num"
         if isinstance(n, ast.JoinedStr):
@@ -67,6 +73,11 @@ class Tr:
         return "?"
 
     def e(self, n) -> str:
+        if self.typ(n) == "optstr" and self.dotted(n) is not None:
+            return f"(({self.raw(n)}).getD [])"       # Optional[str] used as a string: only behind a truthiness guard
+        return self.raw(n)
+
+    def raw(self, n) -> str:
         src = ast.unparse(n)
         if src in self.opaque:
             return self.opaque[src]
@@ -96,9 +107,15 @@ class Tr:
                 if isinstance(v, ast.Constant):
                     parts.append(lean_chars(v.value))
                 elif isinstance(v, ast.FormattedValue) and v.conversion == -1 and v.format_spec is None:
-                    if self.typ(v.value) != "str":
+                    t = self.typ(v.value)
+                    if t == "num" and self.spec.get("numfmt"):
+                        parts.append(f"({self.spec['numfmt']} {self.e(v.value)})")
+                    elif t == "optstr":
+                        parts.append(self.e(v.value))
+                    elif t != "str":
                         raise Unsupported("f-string of a non-string")
-                    parts.append(self.e(v.value))
+                    else:
+                        parts.append(self.e(v.value))
                 else:
                     raise Unsupported("f-string conversion")
             return "(" + " ++ ".join(parts) + ")"
@@ -109,8 +126,16 @@ class Tr:
             if op == "+" and self.typ(n.left) == "str":
                 op = "++"
             return f"({self.e(n.left)} {op} {self.e(n.right)})"
+        if isinstance(n, ast.IfExp):
+            t = n.test
+            if (isinstance(t, ast.Compare) and len(t.ops) == 1 and isinstance(t.ops[0], ast.IsNot) and isinstance(t.comparators[0], ast.Constant)
+                    and t.comparators[0].value is None and ast.unparse(t.left) == ast.unparse(n.body)):
+                return f"(({self.e(n.body)}).getD {self.e(n.orelse)})"          # `x if x is not None else d`
+            return f"(if {self.cond(n.test)} then {self.e(n.body)} else {self.e(n.orelse)})"
         if isinstance(n, ast.UnaryOp) and isinstance(n.op, ast.Not):
             return f"(!{self.cond(n.operand)})"
+        if isinstance(n, ast.BoolOp) and isinstance(n.op, ast.Or) and len(n.values) == 2 and self.typ(n.values[0]) == "str" and self.typ(n.values[1]) == "str":
+            return f"(if !({self.e(n.values[0])}).isEmpty then {self.e(n.values[0])} else {self.e(n.values[1])})"      # `s or t` as a value
         if isinstance(n, ast.BoolOp):
             op = " && " if isinstance(n.op, ast.And) else " || "
             return "(" + op.join(self.cond(v) for v in n.values) + ")"
@@ -118,6 +143,10 @@ class Tr:
             a, b, op = n.left, n.comparators[0], n.ops[0]
             if isinstance(op, ast.In) and isinstance(b, ast.Tuple):
                 return "(" + " || ".join(f"({self.e(a)} == {self.e(x)})" for x in b.elts) + ")"
+            if isinstance(op, ast.In) and isinstance(a, ast.Constant) and isinstance(a.value, str) and len(a.value) == 1 and self.typ(b) == "str":
+                return f"({self.e(b)}).contains '{a.value}'"
+            if isinstance(op, (ast.Is, ast.IsNot)) and isinstance(b, ast.Constant) and b.value is None:
+                return f"({self.e(a)}).{'isNone' if isinstance(op, ast.Is) else 'isSome'}"
             if isinstance(op, ast.In):
                 return f"({self.e(b)}).contains {self.e(a)}"
             sym = {ast.GtE: "≥", ast.Gt: ">", ast.LtE: "≤", ast.Lt: "<", ast.Eq: "==", ast.NotEq: "!="}.get(type(op))
@@ -138,6 +167,18 @@ class Tr:
                 return f"({self.e(n.args[0])}).isPrefixOf {self.e(f.value)}"
             if isinstance(f, ast.Attribute) and f.attr == "endswith" and len(n.args) == 1:
                 return f"({self.e(n.args[0])}).isSuffixOf {self.e(f.value)}"
+            if isinstance(f, ast.Name) and f.id in self.spec.get("funcs", {}):
+                args = n.args[0].elts if len(n.args) == 1 and isinstance(n.args[0], ast.Tuple) else n.args
+                return "(" + self.spec["funcs"][f.id] + " " + " ".join(self.e(a) for a in args) + ")"
+            if isinstance(f, ast.Name) and f.id in self.spec.get("ctors", {}) and not n.args:
+                lean, fields, fixed = self.spec["ctors"][f.id]
+                kws = {k.arg: k.value for k in n.keywords}
+                for k, want in fixed.items():
+                    if k not in kws or ast.unparse(kws[k]) != want:
+                        raise Unsupported(f"constructor field {k} is not {want}")
+                if set(kws) != set(fields) | set(fixed):
+                    raise Unsupported(f"constructor fields {sorted(kws)}")
+                return "({ " + ", ".join(f"{fields[k]} := {self.e(kws[k])}" for k in fields) + f" }} : {lean})"
             raise Unsupported(f"call {src}")
         if isinstance(n, ast.Subscript) and isinstance(n.slice, ast.Slice) and n.slice.upper is None and n.slice.step is None and n.slice.lower is not None:
             return f"(({self.e(n.value)}).drop {self.e(n.slice.lower)})"
@@ -153,6 +194,8 @@ class Tr:
     def cond(self, n) -> str:
         """an expression in boolean position (Python truthiness of strings/lists)"""
         t = self.typ(n)
+        if t == "optstr" and not isinstance(n, (ast.Compare, ast.BoolOp, ast.UnaryOp, ast.Call)):
+            return f"(match {self.raw(n)} with | some s => !s.isEmpty | none => false)"
         if t in ("str", "list") and not isinstance(n, (ast.Compare, ast.BoolOp, ast.UnaryOp, ast.Call)):
             return f"(!({self.e(n)}).isEmpty)"
         return self.e(n)
@@ -160,12 +203,34 @@ class Tr:
     # ---- statements --------------------------------------------------------------------------
     def ret(self, n) -> str:
         v = self.e(n) if n is not None else "()"
+        if self.spec.get("mode") == "except":
+            return f".ok {v}"
         return f"({self.state}, {v})" if self.state else v
+
+    def error_of(self, exc) -> str:
+        if not (isinstance(exc, ast.Call) and ast.unparse(exc.func) == "ValueError" and len(exc.args) == 1):
+            raise Unsupported(f"raise {ast.unparse(exc)[:40]}")
+        a = exc.args[0]
+        head = a.value if isinstance(a, ast.Constant) else a.values[0].value if isinstance(a, ast.JoinedStr) and isinstance(a.values[0], ast.Constant) else None
+        for pre, lean in self.spec.get("errors", {}).items():
+            if isinstance(head, str) and head.startswith(pre):
+                return lean
+        raise Unsupported(f"unknown error message {head!r}")
 
     def block(self, stmts, ind: str) -> str:
         if not stmts:
             raise Unsupported("control falls off the end")
         s, rest = stmts[0], stmts[1:]
+        # an opaque sub-expression that may raise: evaluated (once) by the first statement that mentions it
+        is_doc = isinstance(s, ast.Expr) and isinstance(s.value, ast.Constant)
+        for src, (param, bound) in list(self.spec.get("raising", {}).items()):
+            if not is_doc and src not in self.opaque and src in ast.unparse(s):
+                self.opaque[src] = bound
+                return f"{ind}match {param} with\n{ind}| .error e => .error e\n{ind}| .ok {bound} =>\n" + self.block(stmts, ind + "  ")
+        if isinstance(s, ast.Assign) and ast.unparse(s.value) in self.spec.get("skip_assign", ()):
+            return self.block(rest, ind)
+        if isinstance(s, ast.Raise) and self.spec.get("mode") == "except" and s.exc is not None:
+            return f"{ind}.error {self.error_of(s.exc)}"
         stop = self.spec.get("stop_at")
         if stop and isinstance(s, stop[0]):
             return ind + self.ret(ast.parse(stop[1], mode="eval").body)
@@ -203,7 +268,7 @@ class Tr:
             return f"{ind}let {d} := {d} {op} {self.e(s.value)}\n" + self.block(rest, ind)
         if isinstance(s, ast.If):
             def falls(b):
-                return not b or not isinstance(b[-1], ast.Return) and not (isinstance(b[-1], ast.If) and not falls(b[-1].body) and b[-1].orelse and not falls(b[-1].orelse))
+                return not b or not isinstance(b[-1], (ast.Return, ast.Raise)) and not (isinstance(b[-1], ast.If) and not falls(b[-1].body) and b[-1].orelse and not falls(b[-1].orelse))
             body = list(s.body) + (rest if falls(s.body) else [])
             orelse = list(s.orelse) + (rest if falls(s.orelse) else [])
             if falls(s.body) and falls(s.orelse) and self._assigns_only(s.body) and not s.orelse:
@@ -302,6 +367,24 @@ SPECS = [
          header="def canonicalPath (decoded : List Nat) (parts : List (List Nat)) : List Nat :=",
          opaque={"unquote(path)": "decoded", "decoded.split('/')": "parts"},
          types={"decoded": "str", "parts": "list", "segments": "list", "part": "str", "canonical": "str"}),
+    dict(name="parseUrl", file="utils/url.py", cls=None, func="parse_url", mode="except", numfmt="Url.natToStr",
+         header=("def parseUrl (url scheme : Url.Str) (hostname username password : Option Url.Str) (fragment : Url.Str) (splitR : Except Url.Err Unit)\n"
+                 "    (portR : Except Url.Err (Option Nat)) (path netloc query : Url.Str) : Except Url.Err Url.Parsed :="),
+         rename={"parsed.scheme": "scheme", "parsed.hostname": "hostname", "parsed.username": "username", "parsed.password": "password",
+                 "parsed.fragment": "fragment", "parsed.path": "path", "parsed.netloc": "netloc", "parsed.query": "query", "parsed.params": "([] : Url.Str)",
+                 "DEFAULT_PORT": "Gen.defaultPort"},
+         # `urlparse(url)` and the `.port` property may raise ValueError: parameters of type Except; `.rpartition('@')[2]` is the model's hostPart
+         raising={"urlparse(url)": ("splitR", "_split"), "parsed.port": ("portR", "port?")},
+         skip_assign=("urlparse(url)",),
+         opaque={"parsed.netloc.rpartition('@')[2]": "(Url.hostPart netloc)"},
+         funcs={"urlunparse": "Url.unparse6"},
+         ctors={"ParsedURL": ("Url.Parsed", {"hostname": "host", "port": "port", "path": "path", "query": "query", "normalized": "normalized"},
+                              {"scheme": "'gemini'", "fragment": "parsed.fragment or ''"})},
+         errors={"URL cannot be empty": ".empty", "URL missing scheme": ".noScheme", "Invalid scheme": ".badScheme", "URL missing hostname": ".noHost",
+                 "URL must not contain userinfo": ".userinfo", "URL must not contain fragment": ".fragment"},
+         types={"url": "str", "parsed.scheme": "str", "parsed.hostname": "optstr", "parsed.username": "optstr", "parsed.password": "optstr", "parsed.fragment": "str",
+                "parsed.path": "str", "parsed.netloc": "str", "parsed.query": "str", "parsed.params": "str", "parsed.port": "optnum", "DEFAULT_PORT": "num",
+                "parsed.netloc.rpartition('@')[2]": "str", "port": "num", "path": "str", "host": "str", "bracketed": "bool", "normalized": "str"}),
 ]
 
 
@@ -319,13 +402,29 @@ def find_func(tree, cls, func):
     return None
 
 
-def translate_all() -> tuple[str, dict[str, str]]:
+PRELUDE = {
+    "consume": (["NauyacaVerif.Mw.Acl"], ["structure BucketSt where", "  capacity : Rat", "  refill_rate : Rat", "  tokens : Rat", "  last_update : Rat", ""]),
+    "isAllowed": (["NauyacaVerif.Mw.Acl"], []),
+    "chain": ([], []),
+    "upstreamUrl": ([], []),
+    "canonicalPath": ([], []),
+    "parseUrl": (["NauyacaVerif.Url.Basic", "NauyacaVerif.Gen.Params"], []),
+}
+
+
+def cap(name: str) -> str:
+    return name[0].upper() + name[1:]
+
+
+def translate_all() -> tuple[dict[str, str], dict[str, str]]:
+    """one Lean file per function (so that a change to one function touches only the properties resting on it)"""
     src = core.REPO / "src" / "nauyaca"
-    out = ["-- GENERATED by harness/translate.py from the current source tree on every run — do not edit",
-           "import NauyacaVerif.Mw.Acl", "namespace NauyacaVerif.Gen.Fn", "",
-           "structure BucketSt where", "  capacity : Rat", "  refill_rate : Rat", "  tokens : Rat", "  last_update : Rat", ""]
+    files: dict[str, str] = {}
     status: dict[str, str] = {}
     for spec in SPECS:
+        imports, prelude = PRELUDE.get(spec["name"], ([], []))
+        out = ["-- GENERATED by harness/translate.py from the current source tree on every run — do not edit"] + [f"import {i}" for i in imports] + \
+              ["namespace NauyacaVerif.Gen.Fn", ""] + prelude
         try:
             f = find_func(ast.parse((src / spec["file"]).read_text()), spec["cls"], spec["func"])
             if f is None:
@@ -339,21 +438,28 @@ def translate_all() -> tuple[str, dict[str, str]]:
         except Exception as e:  # noqa: BLE001
             out += [f"-- {spec['name']}: NOT TRANSLATED ({type(e).__name__}: {e})", ""]
             status[spec["name"]] = f"error: {e}"
-    out.append("end NauyacaVerif.Gen.Fn")
-    return "\n".join(out) + "\n", status
+        out.append("end NauyacaVerif.Gen.Fn")
+        files[cap(spec["name"])] = "\n".join(out) + "\n"
+    return files, status
 
 
 def regenerate() -> dict[str, str]:
-    text, status = translate_all()
-    f = core.LEAN / "NauyacaVerif" / "Gen" / "Fn.lean"
-    f.parent.mkdir(exist_ok=True)
-    if not f.exists() or f.read_text() != text:
-        f.write_text(text)
+    files, status = translate_all()
+    d = core.LEAN / "NauyacaVerif" / "Gen" / "Fn"
+    d.mkdir(parents=True, exist_ok=True)
+    old = core.LEAN / "NauyacaVerif" / "Gen" / "Fn.lean"
+    if old.exists():
+        old.unlink()
+    for name, text in files.items():
+        f = d / f"{name}.lean"
+        if not f.exists() or f.read_text() != text:
+            f.write_text(text)
     return status
 
 
 if __name__ == "__main__":
     core.setup_import_path()
-    text, status = translate_all()
-    print(text)
+    files, status = translate_all()
+    for text in files.values():
+        print(text)
     print(status)
